@@ -194,7 +194,7 @@ def equivariance(ck, RULE, I, name, r1, entry):
                       construct=f"{f}: positional index on a per-event array")
             if not entry.scalar_result and entry.per_event_inputs:
                 # batch reductions feeding a per-event output
-                bad = []
+                bad = [(n_, n_.fn.qualname if n_.fn is not None else "?", s_) for n_, _c, s_ in lc.batch_reductions]
                 from .c10 import permutation_round_trips
                 exempt = permutation_round_trips(g, outs)
                 for o in outs:
